@@ -8,11 +8,20 @@ package mpc
 // private share, lifted to the group, equals the public key share that the verification vector and the MSP
 // assign to the share's holder.
 
+// Public material: the group public key is the lifted secret of the lifted dealer function M.V, and the public key
+// share recorded for EVERY shareholder is that dealer function's share of THAT shareholder (its MSP rows in the MSP's
+// own row order, as ShareOf returns them), for any number of shareholders.
 //@ func NewBasePublicMaterial
 //@   property C03, C12
 //@   purefn
 //@   requires wfVVin(fv) && (mspMatrix != nil ==> wfM(mspMatrix.Matrix()))
-//@   ensures true
+//@   ghostvar ps map[int]V
+//@   ensures (mspMatrix == nil || fv == nil) ==> err != nil
+//@   ensures err == nil ==> result != nil && result.msp == mspMatrix && result.fv == fv && result.pkValue == df.LiftedSecret().Value() && df == res(feldman.NewLiftedDealerFunc(fv, mspMatrix), 0)
+//@   ensures err == nil ==> forall a Int :: 0 <= a && a < seqlen(mspMatrix.Shareholders().Iter()) ==> ps[a] == box(res(df.ShareOf(seqat(mspMatrix.Shareholders().Iter(), a, int)), 0)) && res(df.ShareOf(seqat(mspMatrix.Shareholders().Iter(), a, int)), 1) == nil
+//@   loop range(mspMatrix.Shareholders().Iter())
+//@     invariant forall a Int :: 0 <= a && a < $i ==> ps[a] == box(res(df.ShareOf(seqat(mspMatrix.Shareholders().Iter(), a, int)), 0)) && res(df.ShareOf(seqat(mspMatrix.Shareholders().Iter(), a, int)), 1) == nil
+//@   ghostset before "pkShares.Put(shareholder, share)": ps[$i] = box(share)
 
 //@ func NewBaseShard
 //@   property C03, C12, C04
